@@ -237,15 +237,23 @@ def exec_AR(t, ia=False):
     try:
         x = mk(a, sx, nx, fx, rounding=r, overflow=o, op_sizing=pol, op_method=meth, dirty_ok=True)
         y = mk(b, sy, ny, fy, rounding=r2, overflow=o2, op_sizing='optimal' if pol != 'optimal' else 'same', op_method='raw' if meth != 'raw' else 'repr', dirty_ok=True)
-        if route == 'operator':
-            z = OPER[op](x, y)
-        elif route == 'function':
-            z = FUNCS[op](x, y, sizing=pol, method=meth)
-        elif route == 'numpy':
-            assert pol == 'optimal' and meth == 'raw'
-            z = NPFUNCS[op](x, y)
-        else:
-            raise ValueError(route)
+        # content-determined: the operation runs while a class-level template of another format and the opposite modes is active
+        # (the documented `Fxp.template` pattern); a result is sized by the operator and configured by its first operand all the same
+        tmpl = hist_of(nx, fy, len(a), a[0] % 83, b[0] % 79) % 4 == 0
+        if tmpl:
+            Fxp.template = Fxp(None, True, 40, 7, rounding=r2, overflow=o2)
+        try:
+            if route == 'operator':
+                z = OPER[op](x, y)
+            elif route == 'function':
+                z = FUNCS[op](x, y, sizing=pol, method=meth)
+            elif route == 'numpy':
+                assert pol == 'optimal' and meth == 'raw'
+                z = NPFUNCS[op](x, y)
+            else:
+                raise ValueError(route)
+        finally:
+            Fxp.template = None
         disturb(x, y)
     except Exception as e:
         return [exc_token(e)]
